@@ -41,6 +41,12 @@ def cap_mul(script, keep=1):
     ws = script.split("/"); seen = 0
     for i, w in enumerate(ws):
         f = w.split(".")
+        # an UNGUARDED `mul` by A(r2)*c + A(r3) over overlapping ranges chains through the elements in traversal
+        # order and doubles the number of polynomial terms per element (2^extent): not run on the symbolic carrier
+        if f[0].startswith("mul") and f[1] == "b" and "n" not in f[0][3:]:
+            f[0] = "sub" + f[0][3:]
+            ws[i] = ".".join(f)
+            continue
         if f[0].startswith("mul") and f[1] in "ab":
             seen += 1
             if seen > keep:
@@ -62,7 +68,7 @@ def scripts0(dims, V, rng, quick):
             for s in tri:
                 if G.ext_of(s, n) == e:
                     pairs.append((d, s))
-        cap = 360 if quick else 6000
+        cap = 360 if quick else 3000
         if len(pairs) > cap:
             pairs = rng.sample(pairs, cap)
         for i, (d, s) in enumerate(pairs):
@@ -132,6 +138,7 @@ def sym_groups(tier, seed):
             r2 = random.Random(rng.random())
             sc = [alias_write(dims, V, r2, na=True) for _ in range(60 if quick else 400)]
             sc += [alias_write(dims, V, r2, na=True, perfect=True) for _ in range(20 if quick else 100)]
+            sc = [x.replace("muln.b.", "subn.b.") for x in sc]       # the flag has no effect in this cell: same hazard
             rd = tuple(1 for _ in dims)
             calls = ['VW(Sym%d, %s, %s, "%s");' % (sz, c05.tup(rd), c05.tup(dims), s) for s in sc]
             groups.append({"key": "%s/sz%d/vea0/nal-%s" % (isa, sz, which), "header": "view_write_sym.h", "isa": isa, "opt": "-O0",
